@@ -16,7 +16,7 @@ from ..alias import FnAlias
 from ..cfg import CFG, path_of
 from ..flow import clone
 from ..astutil import unparse, call_name, func_params, strip_docstring, walk_no_nested
-from .common import site
+from .common import site, canon_fn
 
 SOLVER = "cuqi/solver/_solver.py"
 
@@ -65,16 +65,18 @@ def _r1(chk, repo):
     specs = [("CGLS", "solve", "self.explicitA", ["self.A"], []), ("FISTA", "solve", "self._explicitA", ["self.A"], []),
              ("LM", "solve", "self.explicitA", [], ["self.A", "self.jacfun"])]
     n = 0
+    from .common import canon_fn
     for cls, meth, flag, ops, plain in specs:
         ci = repo.cls(f"{SOLVER}:{cls}")
-        fn = repo.method(ci, meth)[1]
+        fn_src = repo.method(ci, meth)[1]
+        fn = canon_fn(repo, ci, fn_src, 2)        # helpers that wrap the matrix/function dispatch are inlined at their call sites
         for node in ast.walk(fn):
             if isinstance(node, ast.If) and _norm(node.test) == flag:
                 n += 1
                 inst = f"{ci.qual}.{meth}/if-{flag.split('.')[-1]}@{_norm(node.body[0])[:30]}"
                 a = [_norm(_ToFunctionForm(ops, plain).visit(clone(s))) for s in node.body]
                 b = [_norm(s) for s in node.orelse]
-                chk.add("C16-R1", inst, a == b, site(repo, node), "matrix form ≡ function form",
+                chk.add("C16-R1", inst, a == b, site(repo, fn_src), "matrix form ≡ function form",
                         f"the two operator forms differ: matrix form (rewritten) {a} vs function form {b}: the solver runs a different "
                         f"algorithm depending on how the operator is supplied", node)
     if n < 6:
@@ -119,9 +121,10 @@ def _r1(chk, repo):
     bb, fail = _un(pats, _st(sv, nested=True))
     chk.add("C16-R1", f"{pc.qual}.solve", bb is not None, site(repo, sv), "s = P^-T A^T r, t = P^-1 p, q = A t, x += alpha t",
             f"preconditioned recurrences changed: `{pats[fail] if bb is None else ''}` has no consistent match", sv)
-    cg = repo.method(repo.cls(f"{SOLVER}:CGLS"), "solve")[1]
+    cg_src = repo.method(repo.cls(f"{SOLVER}:CGLS"), "solve")[1]
+    cg = canon_fn(repo, repo.cls(f"{SOLVER}:CGLS"), cg_src, 2)
     from ..pattern import statements, unify
-    S = statements(cg, nested=True)
+    S = statements(cg, nested=True) + statements(cg_src, nested=True)
     pats = ["$x=self.x0.copy()", "$r=self.b-self.A@$x", "$s=self.A.T@$r-self.shift*$x", "$p=$s.copy()", "$q=self.A@$p",
             "$del=LA.norm($q)**2+self.shift*LA.norm($p)**2", "$al=$gam/$del", "$x+=$al*$p", "$r-=$al*$q", "$g1=$gam.copy()", "$ns=LA.norm($s)",
             "$gam=$ns**2", "$p=$s+$gam/$g1*$p", "$flag=$ns<=$ns0*self.tol or $nx*self.tol>=1", "return ($x,$k)"]
@@ -175,24 +178,58 @@ def _r3(chk, repo):
             "maximize does not negate the function and its gradient together", init)
     if "solve" in mx.methods:
         chk.fail("C16-R3", f"{mx.qual}.solve", site(repo, mx.methods["solve"]), "maximize overrides solve (result may be altered)", mx.methods["solve"])
+    from ..pathtable import walk
+    from ..pattern import norm as pn
+    from ..canon import _SymOrder
+
+    def ct(t):
+        return pn(_SymOrder().visit(ast.parse(t, mode="eval").body))
+
+    def first_of_result(ci, valuation):
+        sv_src = repo.method(ci, "solve")[1]
+        v = canon_fn(repo, ci, sv_src, 2)
+        from ..pathtable import walk_all
+        outs = walk_all(v, {ct(k): val for k, val in valuation.items()}, pn,
+                        project=lambda r: _SymOrder().visit(r.elts[0]) if isinstance(r, ast.Tuple) and r.elts else _SymOrder().visit(r))
+        if len(outs) != 1:
+            bad_ = [o for o in outs if o[0] != "return"]
+            return sv_src, ("unknown" if bad_ else "return"), (bad_[0][1] if bad_ else " | ".join(sorted(o[1] or "" for o in outs)))
+        kind, txt = next(iter(outs))
+        return sv_src, kind, txt
     mn = repo.cls(f"{SOLVER}:minimize")
-    sv = repo.method(mn, "solve")[1]
-    t = _norm(sv)
-    ok = "solution=opt.minimize(self.func,self.x0,jac=self.gradfunc,method=self.method,**self.kwargs)" in t and \
-        "ifisinstance(self.x0,CUQIarray):sol=CUQIarray(solution['x'],geometry=self.x0.geometry)else:sol=solution['x']return(sol,info)" in t
-    chk.add("C16-R3", f"{mn.qual}.solve", ok, site(repo, sv), "returns SciPy's x (wrapped with x0's geometry)", "minimize does not return SciPy's x unchanged", sv)
+    SC = "opt.minimize(self.func,self.x0,jac=self.gradfunc,method=self.method,**self.kwargs)"
+    bad, und = [], []
+    for wrapped in (True, False):
+        sv, kind, got = first_of_result(mn, {"isinstance(self.x0,CUQIarray)": wrapped})
+        want = ct(f"CUQIarray({SC}['x'],geometry=self.x0.geometry)") if wrapped else ct(f"{SC}['x']")
+        if kind != "return":
+            und.append(got)
+        elif got != want:
+            bad.append(f"[x0 is a CUQIarray: {wrapped}] returns `{got[:120]}`")
+    chk.decide("C16-R3", f"{mn.qual}.solve", not bad and not und, not und, site(repo, sv), "returns SciPy's x (wrapped with x0's geometry)",
+               "minimize does not return SciPy's x unchanged: " + "; ".join(bad), sv)
     lb = repo.cls(f"{SOLVER}:L_BFGS_B")
-    sv = repo.method(lb, "solve")[1]
-    t = _norm(sv)
-    ok = "solution=fmin_l_bfgs_b(self.func,self.x0,fprime=self.gradfunc,approx_grad=approx_grad,**self.kwargs)" in t and "return(solution[0],info)" in t \
-        and "ifself.gradfuncisNone:approx_grad=1else:approx_grad=0" in t
-    chk.add("C16-R3", f"{lb.qual}.solve", ok, site(repo, sv), "returns fmin_l_bfgs_b's x; approximate gradient only when none is given", "L_BFGS_B wrapper changed", sv)
+    bad, und = [], []
+    for nograd in (True, False):
+        sv, kind, got = first_of_result(lb, {"self.gradfunc is None": nograd, "self.gradfunc is not None": not nograd})
+        want = ct(f"fmin_l_bfgs_b(self.func,self.x0,fprime=self.gradfunc,approx_grad={1 if nograd else 0},**self.kwargs)[0]")
+        if kind != "return":
+            und.append(got)
+        elif got not in (want, want.replace("approx_grad=1", "approx_grad=True").replace("approx_grad=0", "approx_grad=False")):
+            bad.append(f"[no gradient given: {nograd}] returns `{got[:140]}`")
+    chk.decide("C16-R3", f"{lb.qual}.solve", not bad and not und, not und, site(repo, sv), "returns fmin_l_bfgs_b's x; approximate gradient only when none is given",
+               "L_BFGS_B wrapper changed: " + "; ".join(bad), sv)
     ls = repo.cls(f"{SOLVER}:LS")
-    sv = repo.method(ls, "solve")[1]
-    t = _norm(sv)
-    ok = "solution=least_squares(self.func,self.x0,jac=self.jacfun,method=self.method,loss=self.loss,xtol=self.tol,max_nfev=self.maxit)" in t and \
-        "sol=CUQIarray(solution['x'],geometry=self.x0.geometry)else:sol=solution['x']return(sol,info)" in t
-    chk.add("C16-R3", f"{ls.qual}.solve", ok, site(repo, sv), "returns least_squares' x", "LS wrapper changed", sv)
+    SC = "least_squares(self.func,self.x0,jac=self.jacfun,method=self.method,loss=self.loss,xtol=self.tol,max_nfev=self.maxit)"
+    bad, und = [], []
+    for wrapped in (True, False):
+        sv, kind, got = first_of_result(ls, {"isinstance(self.x0,CUQIarray)": wrapped})
+        want = ct(f"CUQIarray({SC}['x'],geometry=self.x0.geometry)") if wrapped else ct(f"{SC}['x']")
+        if kind != "return":
+            und.append(got)
+        elif got != want:
+            bad.append(f"[x0 is a CUQIarray: {wrapped}] returns `{got[:120]}`")
+    chk.decide("C16-R3", f"{ls.qual}.solve", not bad and not und, not und, site(repo, sv), "returns least_squares' x", "LS wrapper changed: " + "; ".join(bad), sv)
 
 
 def _r4_r5(chk, repo):
@@ -271,7 +308,8 @@ def _definitely_assigns(stmts, name, twin) -> bool:
 
 def _r6(chk, repo):
     ci = repo.cls(f"{SOLVER}:LM")
-    fn = repo.method(ci, "solve")[1]
+    fn_src = repo.method(ci, "solve")[1]
+    fn = canon_fn(repo, ci, fn_src, 2)
     body = strip_docstring(fn.body)
     loops = [s for s in body if isinstance(s, ast.While)]
     rets = [s for s in body if isinstance(s, ast.Return)]
